@@ -426,3 +426,11 @@ func opsJSON(ops []recOp) [][2]interface{} {
 	}
 	return out
 }
+
+func opsTotal(ops []recOp) int {
+	t := 0
+	for _, o := range ops {
+		t += o.N
+	}
+	return t
+}
